@@ -185,7 +185,7 @@ def run(ctx, anchors=None):
         ctx.site()
         srcf = efields(stepper, n["args"][0]) if n["args"] else []
         pushed[h] = (srcf[0] if srcf else None, n)
-    ctx.floor("R04.2", len(pushed), 4, "history vectors pushed by the stepper")
+    ctx.floor("R04.2", len(pushed), 1, "history vectors pushed by the stepper")
     callpos = cfg.position(call)
     for h, (src, n) in sorted(pushed.items()):
         ctx.inst(cfg.dominates(n, call), "R04.2", "push-before-step:" + h, stepper.loc(n),
@@ -194,12 +194,8 @@ def run(ctx, anchors=None):
     # the call is the operand of '!' in the if-condition: find cond edges labelled with the call or its negation
     fail_succ = succ_succ = None
     for (a, s, c, t) in cfg.cond_edges():
-        cn = stepper.node_by_id(c)
+        x = stepper.node_by_id(c)
         truth = t
-        x = cn
-        while x is not None and x.get("k") == "un" and x.get("op") == "!":
-            x = x["e"]
-            truth = not truth
         if x is call:
             if truth:
                 succ_succ = s
@@ -294,3 +290,31 @@ def run(ctx, anchors=None):
     ctx.extra["write_set_fields"] = sorted(".".join(k) for k in groups)
     ctx.extra["restore_set_fields"] = sorted(".".join(k) for k in Rs)
     ctx.extra["write_set_fixpoint_rounds"] = getattr(prog, "ws_rounds", None)
+
+
+MUTANTS = [
+    dict(name="drop-restore-altstack", file="debugger/interpreter.cpp",
+         find="    env.altstack = env.altstack_history.back();\n", replace="",
+         expect=["R04.1:field=altstack", "R04.2:restore:altstack_history"]),
+    dict(name="drop-failure-pop-pc_history", file="debugger/interpreter.cpp",
+         find="            env.pc_history.pop_back();\n            env.nOpCount_history.pop_back();\n            return false;",
+         replace="            env.nOpCount_history.pop_back();\n            return false;",
+         expect=["R04.2:pop-on-failure:pc_history"]),
+    dict(name="cross-wire-altstack-from-stack_history", file="debugger/interpreter.cpp",
+         find="env.altstack = env.altstack_history.back();", replace="env.altstack = env.stack_history.back();",
+         expect=["R04.2:restore"]),
+    dict(name="drop-counter-decrement", file="debugger/interpreter.cpp",
+         find="    env.curr_op_seq--;\n", replace="", expect=["R04.2:counter-1-on-rewind"]),
+    dict(name="drop-history-push-nOpCount", file="debugger/interpreter.cpp",
+         find="        env.nOpCount_history.push_back(env.nOpCount);\n", replace="",
+         expect=["R04.2:pop-without-push", "R04.2:restore-without-push", "R04.1:field=nOpCount"]),
+    dict(name="new-step-state-opcode_pos", file="script/interpreter.cpp",
+         find="                case OP_NOP:\n                    break;", replace="                case OP_NOP:\n                    ++opcode_pos;\n                    break;",
+         expect=["R04.1:field=opcode_pos"]),
+    dict(name="mutation-before-refusal", file="debugger/interpreter.cpp",
+         find="    if (env.stack_history.size() == 0) {", replace="    env.curr_op_seq--;\n    if (env.stack_history.size() == 0) {",
+         expect=["R04.3:RewindScript", "R04.2:counter-1-on-rewind"]),
+    dict(name="double-increment-on-success", file="debugger/interpreter.cpp",
+         find="        // Update environment\n        env.curr_op_seq++;", replace="        // Update environment\n        env.curr_op_seq += 2;",
+         expect=["R04.2:counter+1-on-success"]),
+]
